@@ -221,3 +221,48 @@ def fit_with_failing_optimiser(seed=0):
     if snapshot(est) != before:
         return ["a failed fit left the estimator's parameters changed"], info
     return [], info
+
+
+def fit_with_succeeding_optimiser(seed=0, config_kwargs=None):
+    """D-opt boundary, success side: the optimiser is replaced by a stub that calls the objective twice and reports success at a
+    point near x0, so fit ALWAYS returns; what it returns must have the model, sensor models, calibration and CONFIGURATION it
+    started with (every Config field given a non-default value)."""
+    config_kwargs = config_kwargs or {"common_subexpression_elimination": False, "extra_validation": True, "max_dt_sec": 0.05, "innovation_filtering": 4.0}
+    try:
+        py, ui, est, info = simple_adapter(seed, 2, 1, config_kwargs=config_kwargs)
+    except Exception as e:
+        return [f"constructing the estimator with Config({config_kwargs}) raised {type(e).__name__}: {(str(e).splitlines() or [''])[0][:100]}"], {}
+    X = data_for(info, 6, seed)
+    before = snapshot(est)
+
+    class Result:
+        success = True
+        message = "stub optimiser: converged"
+
+        def __init__(self, x):
+            self.x = x
+
+    def stub(fun, x0, *a, **kw):
+        x0 = np.array(x0, dtype=float)
+        fun(x0)
+        fun(x0 * 1.25)
+        return Result(x0 * 1.25)
+
+    old = py.minimize
+    py.minimize = stub
+    problems = []
+    try:
+        try:
+            out = est.fit(X)
+        except Exception as e:
+            return [f"optimiser reports success with Config({config_kwargs}): fit raised {type(e).__name__} ({(str(e).splitlines() or [''])[0][:80]})"], info
+    finally:
+        py.minimize = old
+    after = snapshot(out)
+    for key in ("symbolic_model", "sensor_models", "calibration_map", "config"):
+        if after[key] != before[key]:
+            problems.append(f"a successful fit changed parameter {key}: {after[key]} (was {before[key]})")
+    want_pn = {k: v * 1.25 for k, v in before["process_noise"].items()}
+    if any(abs(after["process_noise"].get(k, float('nan')) - v) > 1e-12 for k, v in want_pn.items()):
+        problems.append(f"fitted process noise {after['process_noise']} is not the optimiser's solution {want_pn}")
+    return problems, info
